@@ -66,6 +66,35 @@ fn rule_unprovoked_conflict(ctx: &Ctx, out: &mut Vec<Violation>) {
     }
 }
 
+/// C05.refused / C02.refused: an Acknowledge or ModifyAckDeadline addressed to a subscription that
+/// exists (created once, never the target of a DeleteSubscription, its request well-formed) is
+/// served: it is not answered with an error status.
+fn rule_refused(ctx: &Ctx, out: &mut Vec<Violation>) {
+    let m = ctx.m;
+    for c in m.calls.values() {
+        let (sub, ids, what, rule) = match &c.req {
+            Req::ModAck { sub, ack_ids, secs } if *secs >= 0 => (sub, ack_ids, "ModifyAckDeadline", "C05.refused"),
+            Req::Ack { sub, ack_ids } => (sub, ack_ids, "Acknowledge", "C02.refused"),
+            _ => continue,
+        };
+        let code = match &c.out {
+            Some(Outcome::Err(code, _)) => *code,
+            _ => continue,
+        };
+        if code == INVALID_ARGUMENT || ids.iter().any(|a| definitely_malformed_ack_id(a)) || definitely_malformed_name(sub) {
+            continue;
+        }
+        let inst = match m.unique_sub(sub) {
+            Some(i) => i,
+            None => continue,
+        };
+        if m.sub_delete_ever(sub) || inst.established_seq > c.inv_seq {
+            continue;
+        }
+        out.push(v(rule, format!("error:{what}"), format!("{what} call {} on {} (exists, never deleted) was answered with status {}", c.id, sub, code)));
+    }
+}
+
 /// C10.residue: a CreateSubscription that failed (whatever the status) leaves nothing behind. Judged
 /// at audits for names that no create ever created successfully and no create was abandoned on.
 /// C17.registry: the push registry only holds subscriptions that exist with a push endpoint.
@@ -99,6 +128,7 @@ fn rule_residue(ctx: &Ctx, out: &mut Vec<Violation>) {
 pub fn evaluate_more(ctx: &Ctx, out: &mut Vec<Violation>) {
     rule_status(ctx, out);
     rule_unprovoked_conflict(ctx, out);
+    rule_refused(ctx, out);
     rule_residue(ctx, out);
     rule_c14(ctx, out);
     rule_c13(ctx, out);
